@@ -163,6 +163,32 @@ def step_merge(o1, o2, i1, i2, t1, t2):
     return len(present) == n_before + len(oth_syms)
 
 
+def step_merge_inner(o1, o2, i1, i2, t1, t2):
+    """merge into the NESTED scope: a symbol that has to be renamed gets a freshly generated name, which must
+    clash neither with the receiving table nor with its enclosing scope"""
+    routine, inner = build(o1, o2, i1, i2)
+    tab = inner.symbol_table
+    oth = other_table(t1, t2)
+    oth_syms = list(oth.symbols_dict.values())
+    old = [norm(s.name) for s in oth_syms]
+    outer_names = set(routine.symbol_table.symbols_dict.keys())
+    n_before = len(tab.symbols_dict)
+    before = snapshot(routine.symbol_table, tab)
+    try:
+        tab.merge(oth)
+    except SymbolError:
+        return snapshot(routine.symbol_table, tab) == before
+    if not (wellformed(tab) and wellformed(routine.symbol_table)):
+        return False
+    present = list(tab.symbols_dict.values())
+    for s, o in zip(oth_syms, old):
+        if sum(1 for p in present if p is s) != 1:
+            return False
+        if norm(s.name) != o and norm(s.name) in outer_names:
+            return False            # renamed onto a name of the enclosing scope
+    return len(present) == n_before + len(oth_syms)
+
+
 def step_remove(o1, o2, i1, i2, r):
     routine, inner = build(o1, o2, i1, i2)
     tab = routine.symbol_table
@@ -196,6 +222,7 @@ STEPS = {"new_symbol": (step_new_symbol, ["o1", "o2", "i1", "i2", "r", "shadow"]
          "rename_symbol": (step_rename, ["o1", "o2", "i1", "i2", "r"]),
          "lookup": (step_lookup, ["o1", "o2", "i1", "i2", "r"]),
          "merge": (step_merge, ["o1", "o2", "i1", "i2", "t1", "t2"]),
+         "merge_inner": (step_merge_inner, ["o1", "o2", "i1", "i2", "t1", "t2"]),
          "remove": (step_remove, ["o1", "o2", "i1", "i2", "r"]),
          "find_or_create_tag": (step_tag, ["o1", "o2", "i1", "i2", "r"])}
 
